@@ -511,3 +511,232 @@ Section BaseRead.
     - rewrite L. reflexivity.
   Qed.
 End BaseRead.
+
+(* =====================================================================================
+   BaseResp.FastRead
+   ===================================================================================== *)
+Definition ms (p : option baseresp) : bytes := match p with Some r => r_msg r | None => [] end.
+Definition cd (p : option baseresp) : Z := match p with Some r => r_code r | None => 0%Z end.
+Definition xt' (p : option baseresp) : smap := match p with Some r => r_extra r | None => None end.
+
+Definition resp_loop_res : Type :=
+  ((gmap bytes bytes * Z * bytes * Z * gerror * Z * Z * Z) + (bytes * Z * gmap bytes bytes * Z * gerror))%type.
+
+Definition resp_out_sim (g : res resp_loop_res) (h : res (option baseresp * N)) : Prop :=
+  match h with
+  | Ok (p', off') => exists ex' ft fi l',
+      g = Ok (inl (ex', cd p', ms p', Z.of_N off', gnil, ft, fi, l')) /\ mequiv ex' (xt' p')
+  | Err e => exists a1 a2 a3 a4, g = Ok (inr (a1, a2, a3, a4, Some e))
+  | Panic _ => exists w, g = Panic w
+  | OOB => g = OOB
+  end.
+
+Lemma resp_entries_sim xs fuel en c m0 b sz :
+  wf b -> glen_ok b -> (0 <= sz < 2 ^ 62)%Z ->
+  forall f lf i off m ex err l,
+    (f < lf)%nat -> (0 <= i)%Z -> off <= len b -> lequiv ex m ->
+    rd_entries f b i sz off m <> Err e_fuel ->
+    ent_sim (g_base_BaseResp_FastRead_loop2 xs fuel en c m0 false b sz lf (Some ex) (Z.of_N off) err l i)
+            (fun r e => exists a1 a2 a3 a4, r = (a1, a2, a3, a4, Some e))
+            (rd_entries f b i sz off m).
+Proof.
+  intros W Hb Hsz. pose proof Hb as Hb'. unfold glen_ok, glen in Hb'.
+  induction f as [|f IH]; intros lf i off m ex err l Hlf Hi Hoff Hm Hnf; (destruct lf as [|lf]; [lia|]);
+    cbn [rd_entries g_base_BaseResp_FastRead_loop2] in *.
+  - destruct (Z.leb_spec sz i) as [Hge|Hlt]; [|exfalso; apply Hnf; reflexivity].
+    destruct (Z.ltb_spec i sz); [lia|]. cbn [ent_sim]. repeat eexists. exact Hm.
+  - destruct (Z.leb_spec sz i) as [Hge|Hlt].
+    { destruct (Z.ltb_spec i sz); [lia|]. cbn [ent_sim]. repeat eexists. exact Hm. }
+    destruct (Z.ltb_spec i sz); [|lia].
+    match goal with |- ent_sim (bind (gslice_from b (Z.of_N off)) (fun t => bind (g_thrift_ReadString en t) ?K)) _ _ =>
+      pose proof (at_off_step (g_thrift_ReadString en) r_string b off K (g_thrift_ReadString_sim en) r_string_len W) as S1 end.
+    unfold rd_string in *.
+    destruct (slice_from_cases b off) as [[_ Es]|Es]; rewrite Es in *; cbn [bind ent_sim] in *;
+      [|destruct S1 as [w' S1]; rewrite S1; eexists; reflexivity].
+    destruct (r_string (drop off b)) as [[k n1]|e|w|]; cbn [bind ent_sim] in *.
+    2:{ destruct S1 as (a & z & S1). rewrite S1. cbn [is_nil negb bind gerr_prepend]. repeat eexists. }
+    2:{ destruct S1 as [w' S1]. rewrite S1. eexists; reflexivity. }
+    2:{ rewrite S1. reflexivity. }
+    destruct S1 as [S1 Hle1]. rewrite S1. cbn [is_nil gnil negb].
+    rewrite (wraps64_small (Z.of_N off + Z.of_N n1)) by lia.
+    replace (Z.of_N off + Z.of_N n1)%Z with (Z.of_N (off + n1)) by lia.
+    match goal with |- ent_sim (bind (gslice_from b (Z.of_N (off + n1))) (fun t => bind (g_thrift_ReadString en t) ?K)) _ _ =>
+      pose proof (at_off_step (g_thrift_ReadString en) r_string b (off + n1) K (g_thrift_ReadString_sim en) r_string_len W) as S2 end.
+    destruct (slice_from_cases b (off + n1)) as [[_ Es2]|Es2]; rewrite Es2 in *; cbn [bind ent_sim] in *;
+      [|destruct S2 as [w' S2]; rewrite S2; eexists; reflexivity].
+    destruct (r_string (drop (off + n1) b)) as [[v n2]|e|w|]; cbn [bind ent_sim] in *.
+    2:{ destruct S2 as (a & z & S2). rewrite S2. cbn [is_nil negb bind gerr_prepend]. repeat eexists. }
+    2:{ destruct S2 as [w' S2]. rewrite S2. eexists; reflexivity. }
+    2:{ rewrite S2. reflexivity. }
+    destruct S2 as [S2 Hle2]. rewrite S2. cbn [is_nil gnil negb bind gptr_check gmap_set].
+    rewrite (wraps64_small (Z.of_N (off + n1) + Z.of_N n2)) by lia.
+    replace (Z.of_N (off + n1) + Z.of_N n2)%Z with (Z.of_N (off + n1 + n2)) by lia.
+    rewrite (wraps64_small (i + 1)) by lia.
+    apply IH; [lia|lia|lia|apply lequiv_insert, Hm|exact Hnf].
+Qed.
+
+Lemma r_i32_not_oob sub : r_i32 sub <> OOB.
+Proof. unfold r_i32, need. destruct (len sub <? 4); cbn [bind]; discriminate. Qed.
+
+Lemma r_i32_len' sub v n : wf sub -> r_i32 sub = Ok (v, n) -> n <= len sub.
+Proof. intros _ E. exact (r_i32_len sub v n E). Qed.
+
+Section RespRead.
+  Variable xs : bytes -> Z -> res (Z * gerror).
+  Hypothesis xs_ok : forall sub t, wf sub -> sim Z.of_N (xs sub t) (skipf sub t).
+  Variable en : bool.
+  Variables (fuel : nat) (b : bytes).
+  Hypothesis W : wf b.
+  Hypothesis Hb : glen_ok b.
+  Hypothesis Hfuel : (S (length b) < fuel)%nat.
+
+  Notation loop1 := (g_base_BaseResp_FastRead_loop1 xs fuel en).
+
+  (* one scalar field: p.F, l, err = x.ReadXxx(b[off:]); off += l; if err != nil { goto ReadFieldError } *)
+  Lemma resp_field_case {A} (G : bytes -> res (A * Z * gerror)) (R : bytes -> res (A * N))
+        (rdinto : Z -> (A -> baseresp -> baseresp) -> reader baseresp)
+        (set : A -> baseresp -> baseresp) (p : option baseresp) off1
+        (K : A * Z * gerror -> res resp_loop_res) (cont : option baseresp -> N -> res (option baseresp * N)) :
+    (forall sub, wf sub -> sim zl (G sub) (R sub)) ->
+    (forall sub a n, wf sub -> R sub = Ok (a, n) -> n <= len sub) ->
+    (forall sub, R sub <> OOB) ->
+    (forall q, rdinto lbl_field set b off1 q =
+               do sub <- slice_from b off1;
+               if is_none q then Panic 4 else
+               do (s, l) <- relabel lbl_field (R sub); do p' <- upd q (set s); Ok (p', off1 + l)) ->
+    off1 <= len b ->
+    (do (p', off') <- rdinto lbl_field set b off1 p; cont p' off') <> Err e_fuel ->
+    (forall s z e, is_none p = false -> exists a1 a2 a3 a4, K (s, z, Some e) = Ok (inr (a1, a2, a3, a4, Some (lbl_field + e)%Z))) ->
+    (forall x, is_none p = true -> exists w, K x = Panic w) ->
+    (forall r s n, p = Some r -> off1 + n <= len b -> cont (Some (set s r)) (off1 + n) <> Err e_fuel ->
+                   resp_out_sim (K (s, Z.of_N n, gnil)) (cont (Some (set s r)) (off1 + n))) ->
+    resp_out_sim (do t <- gslice_from b (Z.of_N off1); do x <- G t; K x)
+                 (do (p', off') <- rdinto lbl_field set b off1 p; cont p' off').
+  Proof.
+    intros HS HL NO HD Ho Hnf HE HN HK.
+    pose proof (at_off_step G R b off1 K HS HL W) as S1.
+    rewrite HD in *.
+    destruct (slice_from_cases b off1) as [[_ Es]|Es]; rewrite Es in *; cbn [bind resp_out_sim] in *;
+      [|destruct S1 as [w' S1]; rewrite S1; eexists; reflexivity].
+    destruct p as [r|]; cbn [is_none upd] in *.
+    - destruct (R (drop off1 b)) as [[s n]|e|w|]; cbn [relabel bind resp_out_sim] in *.
+      + destruct S1 as [S1 Hle]. rewrite S1. apply (HK r s n eq_refl Hle Hnf).
+      + destruct S1 as (s & z & S1). rewrite S1. apply HE. reflexivity.
+      + destruct S1 as [w' S1]. rewrite S1. eexists; reflexivity.
+      + rewrite S1. reflexivity.
+    - pose proof (NO (drop off1 b)) as NO'.
+      destruct (R (drop off1 b)) as [[s n]|e|w|]; cbn [resp_out_sim].
+      + destruct S1 as [S1 _]. rewrite S1. apply HN. reflexivity.
+      + destruct S1 as (s & z & S1). rewrite S1. apply HN. reflexivity.
+      + destruct S1 as [w' S1]. rewrite S1. eexists; reflexivity.
+      + contradiction.
+  Qed.
+
+  Lemma resp_loop_sim : forall f lf off p ex err ftyp fid l,
+    (f < lf)%nat -> off <= len b -> mequiv ex (xt' p) ->
+    read_loop lbl_begin lbl_skip baseresp_disp f b off p <> Err e_fuel ->
+    resp_out_sim (loop1 (is_none p) b lf ex (cd p) (ms p) (Z.of_N off) err ftyp fid l)
+                 (read_loop lbl_begin lbl_skip baseresp_disp f b off p).
+  Proof.
+    pose proof Hb as Hb'. unfold glen_ok, glen in Hb'.
+    induction f as [|f IH]; intros lf off p ex err ftyp fid l Hlf Hoff Hm Hnf; [exfalso; apply Hnf; reflexivity|].
+    destruct lf as [|lf]; [lia|]. cbn [read_loop g_base_BaseResp_FastRead_loop1] in *. unfold rd_field_begin in *.
+    match goal with |- resp_out_sim (bind (gslice_from b (Z.of_N off)) (fun t => bind (g_thrift_ReadFieldBegin t) ?K)) _ =>
+      pose proof (at_off_step g_thrift_ReadFieldBegin r_field_begin b off K g_thrift_ReadFieldBegin_sim (r_field_begin_len') W) as S1 end.
+    destruct (slice_from_cases b off) as [[_ Es]|Es]; rewrite Es in *; cbn [bind resp_out_sim] in *;
+      [|destruct S1 as [w' S1]; rewrite S1; eexists; reflexivity].
+    destruct (r_field_begin (drop off b)) as [[[ft fi] n]|e|w|]; cbn [relabel bind resp_out_sim] in *.
+    2:{ destruct S1 as (a & z & S1). rewrite S1. destruct a as [a1 a2]. cbn [is_nil negb bind gerr_prepend]. repeat eexists. }
+    2:{ destruct S1 as [w' S1]. rewrite S1. eexists; reflexivity. }
+    2:{ rewrite S1. reflexivity. }
+    destruct S1 as [S1 Hle]. rewrite S1. cbn [is_nil gnil negb].
+    rewrite (wraps64_small (Z.of_N off + Z.of_N n)) by lia.
+    replace (Z.of_N off + Z.of_N n)%Z with (Z.of_N (off + n)) by lia.
+    change thrift_STOP with 0%Z in *.
+    destruct (Z.eqb_spec ft 0) as [Hstop|Hstop].
+    { cbn [resp_out_sim]. repeat eexists. exact Hm. }
+    rewrite baseresp_disp_spec in *. cbv zeta in *.
+    set (key := Z.lor (wrapu 32 (gshl (wrapu 32 fi) 8)) (wrapu 32 ft)) in *.
+    set (cont := fun (p' : option baseresp) (off' : N) => read_loop lbl_begin lbl_skip baseresp_disp f b off' p') in *.
+    destruct (key =? 267)%Z.
+    { apply (resp_field_case (g_thrift_ReadString en) r_string (@rd_string_into baseresp) set_msg p (off + n) _ cont
+               (g_thrift_ReadString_sim en) r_string_len r_string_not_oob ltac:(reflexivity) Hle Hnf).
+      - intros s z e Hn. rewrite Hn. cbn [gptr_set bind is_nil negb gerr_prepend]. repeat eexists.
+      - intros [[s z] e] Hn. rewrite Hn. cbn [gptr_set bind]. eexists; reflexivity.
+      - intros r s m -> Hle2 Hn2. cbn [is_none gptr_set bind is_nil gnil negb].
+        rewrite (wraps64_small (Z.of_N (off + n) + Z.of_N m)) by lia.
+        replace (Z.of_N (off + n) + Z.of_N m)%Z with (Z.of_N (off + n + m)) by lia.
+        apply (IH lf (off + n + m) (Some (set_msg s r)) ex gnil ft fi (Z.of_N m)); [lia|lia|exact Hm|exact Hn2]. }
+    destruct (key =? 520)%Z.
+    { apply (resp_field_case g_thrift_ReadI32 r_i32 (@rd_i32_into baseresp) set_code p (off + n) _ cont
+               g_thrift_ReadI32_sim r_i32_len' r_i32_not_oob ltac:(reflexivity) Hle Hnf).
+      - intros s z e Hn. rewrite Hn. cbn [gptr_set bind is_nil negb gerr_prepend]. repeat eexists.
+      - intros [[s z] e] Hn. rewrite Hn. cbn [gptr_set bind]. eexists; reflexivity.
+      - intros r s m -> Hle2 Hn2. cbn [is_none gptr_set bind is_nil gnil negb].
+        rewrite (wraps64_small (Z.of_N (off + n) + Z.of_N m)) by lia.
+        replace (Z.of_N (off + n) + Z.of_N m)%Z with (Z.of_N (off + n + m)) by lia.
+        apply (IH lf (off + n + m) (Some (set_code s r)) ex gnil ft fi (Z.of_N m)); [lia|lia|exact Hm|exact Hn2]. }
+    destruct (key =? 781)%Z.
+    { unfold rd_map_into, rd_strmap in *.
+      match goal with |- resp_out_sim (bind (gslice_from b (Z.of_N (off + n))) (fun t => bind (g_thrift_ReadMapBegin t) ?K)) _ =>
+        pose proof (at_off_step g_thrift_ReadMapBegin r_map_begin b (off + n) K g_thrift_ReadMapBegin_sim (r_map_begin_len') W) as S2 end.
+      destruct (slice_from_cases b (off + n)) as [[_ Es2]|Es2]; rewrite Es2 in *; cbn [relabel bind resp_out_sim] in *;
+        [|destruct S2 as [w' S2]; rewrite S2; eexists; reflexivity].
+      pose proof (r_map_begin_ok (drop (off + n) b)) as MB.
+      destruct (r_map_begin (drop (off + n) b)) as [[[[kt vt] sz] n2]|e|w|]; cbn [relabel bind resp_out_sim] in *.
+      2:{ destruct S2 as (a & z & S2). rewrite S2. destruct a as [[a1 a2] a3]. cbn [is_nil negb bind gerr_prepend]. repeat eexists. }
+      2:{ destruct S2 as [w' S2]. rewrite S2. eexists; reflexivity. }
+      2:{ rewrite S2. reflexivity. }
+      destruct S2 as [S2 Hle2]. rewrite S2. cbn [is_nil gnil negb].
+      destruct (MB kt vt sz n2 (wf_drop _ _ W) eq_refl) as [_ Hsz].
+      rewrite (wraps64_small (Z.of_N (off + n) + Z.of_N n2)) by lia.
+      replace (Z.of_N (off + n) + Z.of_N n2)%Z with (Z.of_N (off + n + n2)) by lia.
+      destruct p as [r|]; cbn [is_none gptr_set bind relabel upd resp_out_sim] in *; [|eexists; reflexivity].
+      pose proof (rd_entries_nofuel b (S (length b)) 0%Z sz (off + n + n2) [] Hle2 ltac:(unfold len; lia)) as NF.
+      pose proof (resp_entries_sim xs fuel en (cd (Some r)) (ms (Some r)) b sz W Hb ltac:(lia)
+                    (S (length b)) fuel 0%Z (off + n + n2) [] [] gnil (Z.of_N n2) Hfuel ltac:(lia) Hle2 (lequiv_refl []) NF) as E.
+      pose proof (rd_entries_bound b (S (length b)) 0%Z sz (off + n + n2) []) as G.
+      destruct (rd_entries (S (length b)) b 0 sz (off + n + n2) []) as [[m off']|e|w|]; cbn [ent_sim relabel bind upd resp_out_sim] in *.
+      - destruct E as (ex' & err' & l' & i' & E & Hm'). rewrite E. cbn [bind].
+        apply (IH lf off' (Some (set_rextra (Some m) r)) (Some ex') err' ft fi l'); [lia|exact (G m off' Hle2 eq_refl)|exact Hm'|exact Hnf].
+      - destruct E as (rr & E & a1 & a2 & a3 & a4 & Er). rewrite E. cbn [bind]. subst rr. repeat eexists.
+      - destruct E as [w' E]. rewrite E. eexists; reflexivity.
+      - rewrite E. reflexivity. }
+    unfold rd_skip in *. rewrite gslice_from_N.
+    destruct (slice_from_cases b (off + n)) as [[_ Es2]|Es2]; rewrite Es2 in *; cbn [relabel bind resp_out_sim] in *;
+      [|eexists; reflexivity].
+    pose proof (xs_ok (drop (off + n) b) ft (wf_drop _ _ W)) as S3.
+    pose proof (skipf_bounded (drop (off + n) b) ft) as SB.
+    destruct (skipf (drop (off + n) b) ft) as [n3|e|w|]; cbn [sim relabel bind resp_out_sim] in *.
+    - rewrite S3. cbn [bind is_nil gnil negb]. specialize (SB n3 (wf_drop _ _ W) eq_refl).
+      rewrite drop_len in SB by lia.
+      rewrite (wraps64_small (Z.of_N (off + n) + Z.of_N n3)) by lia.
+      replace (Z.of_N (off + n) + Z.of_N n3)%Z with (Z.of_N (off + n + n3)) by lia.
+      apply (IH lf (off + n + n3) p ex gnil ft fi (Z.of_N n3)); [lia|lia|exact Hm|exact Hnf].
+    - destruct S3 as [x S3]. rewrite S3. cbn [bind is_nil negb gerr_prepend]. repeat eexists.
+    - rewrite S3. eexists; reflexivity.
+    - rewrite S3. reflexivity.
+  Qed.
+
+  Definition resp_fr_sim (g : res (bytes * Z * gmap bytes bytes * Z * gerror)) (h : res (option baseresp * N)) : Prop :=
+    match h with
+    | Ok (p', off) => exists ex', g = Ok (ms p', cd p', ex', Z.of_N off, gnil) /\ mequiv ex' (xt' p')
+    | Err e => exists a1 a2 a3 a4, g = Ok (a1, a2, a3, a4, Some e)
+    | Panic _ => exists w, g = Panic w
+    | OOB => g = OOB
+    end.
+
+  Theorem g_base_BaseResp_FastRead_sim p :
+    baseresp_read p b <> Err e_fuel ->
+    resp_fr_sim (g_base_BaseResp_FastRead xs fuel en (is_none p) (ms p) (cd p) (xt' p) b) (baseresp_read p b).
+  Proof.
+    intros Hnf. unfold g_base_BaseResp_FastRead, baseresp_read in *.
+    pose proof (resp_loop_sim (S (length b)) fuel 0 p (xt' p) gnil 0%Z 0%Z 0%Z Hfuel ltac:(lia) (mequiv_refl _) Hnf) as L.
+    change (Z.of_N 0) with 0%Z in L.
+    destruct (read_loop lbl_begin lbl_skip baseresp_disp (S (length b)) b 0 p) as [[p' off']|e|w|]; cbn [resp_out_sim resp_fr_sim] in *.
+    - destruct L as (ex' & ft & fi & l' & L & Hm). rewrite L. cbn [bind]. eexists. split; [reflexivity|exact Hm].
+    - destruct L as (a1 & a2 & a3 & a4 & L). rewrite L. cbn [bind]. repeat eexists.
+    - destruct L as [w' L]. rewrite L. eexists; reflexivity.
+    - rewrite L. reflexivity.
+  Qed.
+End RespRead.
